@@ -3,7 +3,7 @@ from __future__ import annotations
 
 import ast
 
-from sa.loader import norm, norm1, walk_shallow, own_nodes, call_name, is_super_call
+from sa.loader import recv, norm, norm1, walk_shallow, own_nodes, call_name, is_super_call
 from sa.rulekit import (nodes_calling, node_calls, nodes_where, return_nodes, own, is_const,
                         nodes_writing_attr, must_pass, written_value, effect_nodes,
                         effect_free_to, superchain, call_sites, check_must_pass, expr_is)
@@ -210,7 +210,7 @@ def run(ck):
                 continue
             n += 1
             key = (fi.fid, cn)
-            ok = key in DIRECT_HANDLER_TABLE and norm(c.func.value) == 'self'
+            ok = key in DIRECT_HANDLER_TABLE and recv(c) == 'self'
             ck.ob(R5, f"{fi.fid} :: {norm(c.func)}()", ok,
                   f"permitted direct use: {DIRECT_HANDLER_TABLE.get(key)}" if ok else
                   f"`{norm(c.func)}(...)` calls an event handler directly, bypassing the "
@@ -229,7 +229,7 @@ def run(ck):
     ck.ob(R5, "classes defining event()", ok, f"event() is defined by {definers}", None,
           f"{sblock.module.path}:{sblock.node.lineno}")
     superchain(ck, R5, 'event', classes={'addons:AddonPersistence'})
-    for fid, recv in (('block:Event.send', None), ('block:ExtEvent.send', 'self._dest')):
+    for fid, _rcv in (('block:Event.send', None), ('block:ExtEvent.send', 'self._dest')):
         fi = prog.func(fid)
         g = ck.cfg(fid, 'M0')
         d = nodes_calling(g, 'event')
